@@ -145,7 +145,7 @@ func blockPos(b *ssa.BasicBlock) int {
 
 func (x *Exec) newPath() *Path {
 	x.npaths++
-	p := &Path{id: x.npaths, heap: map[string]string{}, cells: map[string]Val{}, escaped: map[string]bool{}, locks: map[string]string{}, lockObj: map[string]lockRef{}, nonnil: map[string]bool{}}
+	p := &Path{id: x.npaths, elemStores: map[string][]Val{}, heap: map[string]string{}, cells: map[string]Val{}, escaped: map[string]bool{}, locks: map[string]string{}, lockObj: map[string]lockRef{}, nonnil: map[string]bool{}}
 	p.brk = x.e.fresh("brk", "Int")
 	p.assume("(> " + p.brk + " 1)")
 	p.clock = x.e.fresh("clock", "Int")
@@ -1426,6 +1426,9 @@ func (x *Exec) step(p *Path, in ssa.Instruction) {
 		if vv.K == KAddr && vv.A.Kind == ALocal {
 			p.escaped[vv.A.Cell] = true
 		}
+		if av.A.Kind == AElem && vv.K == KIface && vv.DynT != nil && e.allocated[av.A.Obj] {
+			p.elemStores[av.A.Obj] = append(append([]Val(nil), p.elemStores[av.A.Obj]...), vv)
+		}
 		x.storeTo(p, av.A, vv)
 	case *ssa.BinOp:
 		set(in, x.binop(p, in))
@@ -1441,7 +1444,7 @@ func (x *Exec) step(p *Path, in ssa.Instruction) {
 		set(in, v)
 	case *ssa.MakeInterface:
 		xv := x.val(p, in.X)
-		r := Val{K: KIface, T: in.Type(), Tag: e.typeID(in.X.Type()), Label: xv.Label}
+		r := Val{K: KIface, T: in.Type(), Tag: e.typeID(in.X.Type()), Label: xv.Label, DynT: in.X.Type()}
 		switch xv.K {
 		case KScalar:
 			switch e.sortOf(in.X.Type()) {
